@@ -16,7 +16,7 @@ THEOREMS = {
     'C11': ['C11.C11_star_all', 'C11.C11_pct', 'C11.C11_literal', 'C11.C11_list', 'C11.C11_inbox_guard',
             'C11.C11_errors_unchanged', 'C11.C11_conflicts', 'C11.C11_rename', 'C11.C11_rename_inbox', 'C11.C11_dp_matches'],
     'C12': ['C12.C12_frame', 'C12.C12_frame_program', 'C12.C12_answers', 'C05.C12_readonly_refuses'],
-    'C13': ['C13.crit_iff', 'C13.C13_prefilter_sound', 'C13.C13_exact', 'C13.C13_uid_equiv', 'C13.C13_algebra'],
+    'C13': ['C13.crit_iff', 'C13.C13_prefilter_sound', 'C13.C13_exact', 'C13.C13_uid_equiv', 'C13.C13_algebra', 'C13.C13_set_semantics'],
     'C14': ['C14.C14_conservation', 'C14.C14_move_loses_as_found', 'C14.C14_multiappend_atomic_full_false',
             'C14.C14_multiappend_atomic_partial'],
     'C15': ['C15.C15_prefix', 'C15.C15_full', 'C15.C15_recover', 'C15.C15_crash_anywhere'],
